@@ -35,3 +35,57 @@ MANIFEST_TEXT = {
         "note": "Trusted: z3, our SSA->SMT encoder (cross-checked by native replay and translator-validation runs), exact BV definitions of math/bits intrinsics. Outside the claim: text forms; quoRem with symbolic 128-bit divisor.",
     },
 }
+
+TYPES_GEN = {"support": "harness/c11/support_types.go", "skip": ["elementLeaf", "V2Block", "V2BlockData", "V2TransactionsMultiproof"]}
+BIG_T = "_(Transaction|V1Block|V2Transaction)$"
+
+PROPS["C11"] = {
+    "runs": [
+        {"pkg": "types", "gen": TYPES_GEN, "run": "^VH_C11_RT_", "params": {"quick": {"n": 1}, "thorough": {"n": 1}},
+         "flags": {"quick": ["-maxpaths", "50000"], "thorough": ["-maxpaths", "50000"]},
+         "tv_harnesses": ["VH_C11_RT_SiacoinElement", "VH_C11_RT_FileContract", "VH_C11_RT_V2FileContractResolution", "VH_C11_RT_Transaction", "VH_C11_RT_V2Transaction", "VH_C11_RT_SpendPolicy"]},
+        {"pkg": "types", "gen": TYPES_GEN, "run": "^VH_C11_TR_", "skip": BIG_T, "params": {"quick": {"n": 1}, "thorough": {"n": 1}}},
+        {"pkg": "types", "gen": TYPES_GEN, "run": "^VH_C11_RT_", "params": {"thorough": {"n": 0}}, "thorough_only": True},
+        {"pkg": "types", "gen": TYPES_GEN, "run": "^VH_C11_RT_", "skip": "_(V1Block|Transaction)$", "params": {"thorough": {"n": 2}}, "flags": {"thorough": ["-maxpaths", "200000"]}, "thorough_only": True},
+        {"pkg": "types", "gen": TYPES_GEN, "run": "^VH_C11_TR_(Transaction|V2Transaction)$", "params": {"thorough": {"n": 1}}, "flags": {"thorough": ["-maxpaths", "200000"]}, "thorough_only": True},
+    ],
+    "tv_runs": {"quick": 2, "thorough": 6},
+    "bounds": {"quick": "every slice field 1 element (byte strings 1 byte), pointers non-nil, 7 policy kinds / 3 resolution kinds forked; v1 currencies inside composite v1 objects restricted to one common byte-length in {0,1,8,9,16} (all 17 lengths on V1Currency/V1SiacoinOutput themselves); truncation at every prefix length for all types except Transaction/V1Block/V2Transaction",
+               "thorough": "slice lengths 0, 1 and 2; truncation also for Transaction and V2Transaction"},
+    "outside": ["values with slices longer than the bound", "multiproof block forms (V2Block, V2BlockData, V2TransactionsMultiproof): covered by C18", "types.elementLeaf (internal, decoder needs preset pointers)",
+                "canonicity of arbitrary accepted byte strings is NOT claimed: V1Currency accepts leading zero bytes and V2Transaction accepts set field bits with empty lists (the property only speaks about an object's own encoding)"],
+    "stubs": ["bytes.Buffer, io.LimitedReader, bytes.Reader, encoding/binary: real library code executed"],
+    "assumptions": COMMON_ASSUME + ["documented normalisations applied before comparison: StateElement.shared=false, v1 revision Payout = sentinel, V1Block.V2 = nil, nil == empty slice, times built with time.Unix(s,0)"],
+}
+
+PROPS["C10"] = {
+    "runs": [
+        {"pkg": "types", "gen": TYPES_GEN, "run": "^VH_C10_DEC_", "skip": "_(SpendPolicy|SatisfiedPolicy|V2SiacoinInput|V2SiafundInput|V2Transaction|Transaction|V1Block)$",
+         "params": {"quick": {"N": 40, "alloc_limit": 255, "lazy_make": 1}, "thorough": {"N": 64, "alloc_limit": 255, "lazy_make": 1}},
+         "flags": {"quick": ["-maxlen", "256", "-maxpaths", "200000"], "thorough": ["-maxlen", "256", "-maxpaths", "400000"]}},
+        {"pkg": "types", "gen": TYPES_GEN, "run": "^VH_C10_DEC_(SpendPolicy|SatisfiedPolicy|V2SiacoinInput|V2SiafundInput)$",
+         "params": {"quick": {"N": 20, "alloc_limit": 255, "lazy_make": 1}, "thorough": {"N": 26, "alloc_limit": 255, "lazy_make": 1}},
+         "flags": {"quick": ["-maxlen", "256", "-maxpaths", "200000"], "thorough": ["-maxlen", "256", "-maxpaths", "1000000"]}},
+        {"pkg": "types", "gen": TYPES_GEN, "run": "^VH_C10_DEC_(Transaction|V1Block)$",
+         "params": {"quick": {"N": 100, "alloc_limit": 255, "lazy_make": 1}, "thorough": {"N": 140, "alloc_limit": 255, "lazy_make": 1}},
+         "flags": {"quick": ["-maxlen", "256", "-maxpaths", "200000"], "thorough": ["-maxlen", "256", "-maxpaths", "1000000"]}},
+        {"pkg": "types", "gen": TYPES_GEN, "run": "^VH_C10_DEC_V2Transaction$",
+         "params": {"quick": {"N": 24, "alloc_limit": 255, "lazy_make": 1}, "thorough": {"N": 40, "alloc_limit": 255, "lazy_make": 1}},
+         "flags": {"quick": ["-maxlen", "256", "-maxpaths", "200000"], "thorough": ["-maxlen", "256", "-maxpaths", "1000000"]}},
+    ],
+    "tv_runs": {"quick": 0, "thorough": 0},
+    "bounds": {"quick": "decoders: arbitrary input of N bytes, N=40 (policy-bearing objects 20, v1 Transaction/V1Block 100, V2Transaction 24); every loop unwound to completion (path/loop budgets are unwinding assertions); allocation per site <= max(N,255) elements",
+               "thorough": "N=64 / 26 / 140 / 40"},
+    "outside": ["inputs longer than N", "JSON/text Unmarshal entry points (see C20)"],
+    "stubs": ["fmt.Errorf/Sprintf: opaque values (formatting code not executed)"],
+    "assumptions": COMMON_ASSUME,
+}
+
+MANIFEST_TEXT["C11"] = {
+    "text": "Bounded model checking of the real codec code: for every type with an encoder/decoder pair (harnesses regenerated from the package's method sets on each run) a fully symbolic value of the shape bound is encoded with the real EncodeTo, decoded with the real DecodeFrom, and the solver (mostly the term simplifier) proves decode error == nil, deep equality of every field of the static type, full consumption, byte-identical re-encoding, and failure of every proper prefix. Field-completeness follows from the left inverse: a field dropped from the wire comes back as zero != its symbolic original.",
+    "note": "Trusted: z3, encoder of the engine, flat-cell memory model for the unsafe slice/pointer casts (EncodeSliceCast etc.). Bounds: slice lengths <= 1 (quick) / <= 2 (thorough). Layout-exactness against an independent table is checked only for the objects listed in evidence.bounds.",
+}
+MANIFEST_TEXT["C10"] = {
+    "text": "Bounded model checking: each decoder runs on an arbitrary N-byte buffer (one symbolic bit-vector); every path is explored; any feasible Go panic (index, nil, slice bounds, make size, explicit), any loop exceeding its unwinding bound, and any allocation whose symbolic size can exceed max(N,255) elements is a violation with a concrete input replayed against the real build.",
+    "note": "Trusted: z3, engine. Bounds: N per decoder group as listed in evidence.bounds; inputs longer than N are outside the claim.",
+}
